@@ -36,10 +36,29 @@ def sparse_endgames(rng, n):
     return out
 
 
+CLAIM_PLIES = 5      # interior claims audited up to this distance (5 plies = mate in 3); set per tier in run()
+_claim_seq = [0]
+
+
 def engine_job(args):
     net, opts, jobs = args
     recs = []
-    eng = uci.Engine("plain", net[0], net[1], env={"TEXEL_VERIF_POSGUARD": "1"})
+    _claim_seq[0] += 1
+    cfile = os.path.join(vlib.BUILD, f"claims-{os.getpid()}-{_claim_seq[0]}-{abs(hash((str(net), str(opts), str(jobs[:1]))))}.txt")
+    if os.path.exists(cfile): os.remove(cfile)
+    eng = uci.Engine("plain", net[0], net[1], env={"TEXEL_VERIF_POSGUARD": "1", "TEXEL_VERIF_CLAIMS": f"{cfile},{CLAIM_PLIES},60000"})
+    try:
+        return _engine_job(eng, net, opts, jobs, recs)
+    finally:
+        eng.kill()
+        if os.path.exists(cfile):
+            with open(cfile) as fh: cl = [l.split(" ", 2) for l in fh.read().split("\n")[:-1] if l.count(" ") >= 7]   # [:-1]: drop an unterminated last line
+            os.remove(cfile)
+            if recs: recs[0]["claims"] = [(a, int(b), c) for a, b, c in cl]
+            if recs: recs[0]["session"] = {"net": list(net), "opts": opts, "jobs": [list(j) for j in jobs]}
+
+
+def _engine_job(eng, net, opts, jobs, recs):
     try:
         eng.handshake()
         for k, v in opts.items(): eng.setoption(k, v)
@@ -68,9 +87,14 @@ def run(ctx):
     vh = os.path.join(bdir, "vharness")
     if ctx.replay:
         rp = ctx.replay["replay"]
-        recs = engine_job((tuple(rp.get("net", ("material", 1))), rp.get("opts", {}), [(rp["fen"], rp["go"])]))
+        if "session" in rp:
+            se = rp["session"]
+            recs = engine_job((tuple(se["net"]), se["opts"], [tuple(j) for j in se["jobs"]]))
+        else:
+            recs = engine_job((tuple(rp.get("net", ("material", 1))), rp.get("opts", {}), [(rp["fen"], rp["go"])]))
         for x in recs: print(x.get("out", x)[-4:] if "out" in x else x)
         audit(ctx, vh, recs, set())
+        audit_interior(ctx, vh, recs, 10**9, 10**9, also=rp.get("claim"))
         ctx.count(1); ctx.distinct("a"); ctx.distinct("b")
         return
     # ---- candidate positions and classification by the (untrusted) solver
@@ -158,6 +182,7 @@ def run(ctx):
         recs = [x for rs in ex.map(engine_job, sessions) for x in rs]
     ctx.log("searches done")
     audit(ctx, vh, recs, m1_jobs)
+    audit_interior(ctx, vh, recs, 40000 if quick else 400000, 5000 if quick else 60000)
     ctx.cov["rule"] = ("positions: sparse endgames (K+Q/R/minor vs K(+piece/pawn), weak king near the edge), synthetic motifs, late positions of random games; classified by the solver into mate-in-1 / mate-in-2..3 / "
                        "no mate within 3 (all three classes searched); x depth 1..14 x {Hash 1..64, Threads 1..4, UseNullMove on/off} x 3 nets, with and without a cleared hash; every `score mate N` "
                        "(exact or lowerbound, N>0; final exact N<0) audited by Lean-verified certificates; distinct = distinct (position, go, options)")
@@ -292,3 +317,90 @@ def audit(ctx, vh, recs, m1_jobs):
     ctx.tie("mate-claim-audit", kind="`score mate N` claims of the real engine verified through Lean-checked certificates", certificates=len(q))
     for rec in recs[:2]:
         if "out" in rec: ctx.sample({"fen": rec["fen"], "go": rec["go"], "opts": rec["opts"], "tail": rec["out"][-2:]})
+
+
+def audit_interior(ctx, vh, recs, cap_trivial, cap_deep, also=None):
+    """every mate claim returned by an interior negaScout node (TEXEL_VERIF_CLAIMS hook): `win k` = the side to move mates within k
+    plies, `lose k` = it is mated within k plies.  k <= 1 by the Lean oracles directly, longer ones through certificates."""
+    r = ctx.rng
+    seen, triv, deep, nraw = set(), [], [], 0
+    for rec in recs:
+        for kind, k, fen in rec.get("claims", []):
+            nraw += 1
+            key = (" ".join(fen.split()[:4]), kind, k)
+            if key in seen: continue
+            seen.add(key)
+            n = (k + 1) // 2 if kind == "win" else k // 2
+            item = (kind, k, n, fen, rec.get("session"))
+            if (kind == "win" and k <= 0) or k < 0:
+                ctx.violation(f"a search node returned the impossible mate claim `{kind} {k}` on `{fen}`", {"kind": "property-predicate", "claim": [kind, k, fen], "session": rec.get("session")})
+            elif (kind == "win" and n == 1) or (kind == "lose" and n == 0): triv.append(item)
+            else: deep.append(item)
+    r.shuffle(triv); r.shuffle(deep)
+    dist = {}
+    for it in triv + deep: dist[f"{it[0]} {it[1]}"] = dist.get(f"{it[0]} {it[1]}", 0) + 1
+    st = ctx.cov.setdefault("interior_claims", {"logged": 0, "distinct": 0, "by_kind_plies": {}, "verified_by_oracle": 0, "verified_by_certificate": 0, "solver_unknown": 0, "not_sampled": 0})
+    st["logged"] += nraw; st["distinct"] += len(triv) + len(deep)
+    for k2, v in dist.items(): st["by_kind_plies"][k2] = st["by_kind_plies"].get(k2, 0) + v
+    st["not_sampled"] += max(0, len(triv) - cap_trivial) + max(0, len(deep) - cap_deep)
+    if also:       # replay: the recorded claim itself is judged even when this run does not reproduce it
+        kind, k, fen = also
+        n = (k + 1) // 2 if kind == "win" else k // 2
+        (triv if (kind == "win" and n == 1) or (kind == "lose" and n == 0) else deep).insert(0, (kind, k, n, fen, None))
+    triv, deep = triv[:cap_trivial], deep[:cap_deep]
+    drv = vlib.driver_bin()
+    nch = max(1, min(vlib.NCPU, 8))
+    def par(binary, lines):
+        if not lines: return []
+        parts = [lines[i::nch] for i in range(nch)]
+        with cf.ThreadPoolExecutor(nch) as ex:
+            outs = list(ex.map(lambda pt: vlib.run_lines(binary, pt)[1] if pt else [], parts))
+        res = [None] * len(lines)
+        for i, o in enumerate(outs):
+            if len(o) != len(parts[i]): o = (o + ["died"] * len(parts[i]))[:len(parts[i])]
+            res[i::nch] = o
+        return res
+    # ---- mate in one / mated now: exact Lean oracles
+    wins1 = [it for it in triv if it[0] == "win"]; lose0 = [it for it in triv if it[0] == "lose"]
+    for it, v in zip(wins1, par(drv, [f"mate mate1 {it[3]}" for it in wins1])):
+        ctx.count(); ctx.distinct(("claim",) + it[:2] + (it[3],))
+        if v == "1": st["verified_by_oracle"] += 1
+        else: ctx.violation(f"a search node claimed a mate within {it[1]} ply for the side to move on `{it[3]}` but no move mates (Lean oracle: {v})",
+                            {"kind": "property-predicate", "claim": list(it[:2]) + [it[3]], "session": it[4]})
+    for it, v in zip(lose0, par(drv, [f"chess line {it[3]}" for it in lose0])):
+        ctx.count(); ctx.distinct(("claim",) + it[:2] + (it[3],))
+        if v.startswith("ok") and "legal=0" in v and "chk=1" in v: st["verified_by_oracle"] += 1
+        else: ctx.violation(f"a search node claimed `mated now` on `{it[3]}` but the side to move is not checkmated ({v[-16:]})",
+                            {"kind": "property-predicate", "claim": list(it[:2]) + [it[3]], "session": it[4]})
+    # ---- longer claims: solver strategy / refutation, verified by the proven checkers
+    sol = par(vh, [(f"mate solve {it[2]} {SOLVE_BUDGET} {it[3]}" if it[0] == "win" else f"mate lose {it[2]} {SOLVE_BUDGET} {it[3]}") for it in deep])
+    q, qm, aft = [], [], []
+    for it, s in zip(deep, sol):
+        kind, k, n, fen, sess = it
+        ctx.count(); ctx.distinct(("claim", kind, k, fen))
+        base = {"kind": "property-predicate", "claim": [kind, k, fen], "session": sess}
+        if kind == "win":
+            if s.startswith("win "): q.append(f"mate wincert {n} {fen} {s[4:]}"); qm.append(("ok", base))
+            elif s.startswith("nowin "): q.append(f"mate nowincert {n} {fen} {s[6:]}"); qm.append(("refute", base))
+            else: st["solver_unknown"] += 1
+        else:
+            if s.startswith("lose "): q.append(f"mate losecert {n} {fen} {s[5:]}"); qm.append(("ok", base))
+            elif s.startswith("notlose "): aft.append((len(q), fen, s.split()[1], n, s.split(" ", 2)[2])); q.append(None); qm.append(("refute", base))
+            elif s == "nomoves": ctx.violation(f"a search node claimed `mated within {k} plies` on `{fen}`, which has no legal move and is not mate", base)
+            else: st["solver_unknown"] += 1
+    if aft:
+        res = par(drv, [f"chess line {f} {mv}" for _, f, mv, n, c in aft])
+        for (i, f, mv, n, c), a in zip(aft, res):
+            q[i] = f"mate nowincert {n} {' '.join(a.split()[2:8])} {c}" if a.startswith("ok") else "mate bad"
+    ver = par(drv, q)
+    for line, (kind, base), v in zip(q, qm, ver):
+        if kind == "ok":
+            if v == "ok": st["verified_by_certificate"] += 1
+            else: ctx.violation(f"solver's certificate rejected by the Lean checker ({v}) on `{base['claim'][2]}`", {**base, "kind": "correspondence", "cert": line[:2000]}, no_input=True)
+        elif v == "ok":
+            c = base["claim"]
+            ctx.violation(f"a search node returned the mate claim `{c[0]} within {c[1]} plies` on `{c[2]}` and it is false (refutation certificate verified in Lean)", {**base, "refutation": line[:3000]})
+        else:
+            ctx.violation(f"solver refutes an interior claim but its refutation was rejected by the Lean checker ({v}) on `{base['claim'][2]}`", {**base, "kind": "correspondence"}, no_input=True)
+    ctx.tie("interior-mate-claims", kind="every mate claim returned by a negaScout node of the real searches (hook TEXEL_VERIF_CLAIMS), i.e. the run-time instances of `Sound` of the claim calculus, "
+            "verified by the Lean mate-in-one / checkmate oracles and by Lean-checked certificates", claims=len(triv) + len(deep))
